@@ -145,7 +145,7 @@ mod verif_text_w_addr {
     fn view(p: Prefix) -> (bool, IpAddr, u8) { (p.is_v4(), p.addr(), p.len()) }
     fn mview(m: &M) -> (bool, IpAddr, u8) { (m.v4, m.first(), m.len) }
 
-    //@harness text_w_prefix W fn=Prefix::{new,new_v4,new_v6,new_relaxed,new_v4_relaxed,new_v6_relaxed,from_str,from_str_relaxed,fmt,serialize,deserialize,covers,cmp,eq,hash,min_addr,max_addr},Bits::{is_host_zero,clear_host,into_max},FamilyAndLen::{new_v4,new_v6,len} n=30000 timeout=600
+    //@harness text_w_prefix W fn=Prefix::{new,new_v4,new_v6,new_relaxed,new_v4_relaxed,new_v6_relaxed,from_str,from_str_relaxed,fmt,serialize,deserialize,covers,cmp,eq,hash,min_addr,max_addr},Bits::{is_host_zero,clear_host,into_max},FamilyAndLen::{new_v4,new_v6,len} n=120000 timeout=600
     verif_search!{ text_w_prefix; |v4: bool, x4: u32, x6: u128, len: u8, am: u8, tsel: u8, rel: u8, y: u128, len2: u8, y2: u128, len3: u8| {
         let w: u32 = if v4 { 32 } else { 128 };
         let raw: u128 = if v4 { x4 as u128 } else { x6 };
@@ -213,7 +213,7 @@ mod verif_text_w_addr {
         } } }
     }}
 
-    //@harness text_w_maxlen W fn=MaxLenPrefix::{new,saturating_new,from,prefix,max_len,resolved_max_len,from_str,fmt,cmp,eq,hash} n=30000 timeout=600
+    //@harness text_w_maxlen W fn=MaxLenPrefix::{new,saturating_new,from,prefix,max_len,resolved_max_len,from_str,fmt,cmp,eq,hash} n=150000 timeout=600
     verif_search!{ text_w_maxlen; |v4: bool, x4: u32, x6: u128, len: u8, s1: u8, m1: u8, s2: u8, m2: u8, s3: u8, m3: u8, rel: u8, y: u128, len2: u8| {
         let w: u32 = if v4 { 32 } else { 128 };
         let fm = w as u8;
@@ -296,7 +296,7 @@ mod verif_text_w_asn {
         Some(v as u32)
     }
 
-    //@harness text_w_asn W fn=Asn::{from_str,fmt,serialize,deserialize,serialize_as_str,serialize_as_bare_str,serialize_as_u32,deserialize_from_str,deserialize_from_any,deserialize_from_u32},strip_as n=30000 timeout=600
+    //@harness text_w_asn W fn=Asn::{from_str,fmt,serialize,deserialize,serialize_as_str,serialize_as_bare_str,serialize_as_u32,deserialize_from_str,deserialize_from_any,deserialize_from_u32},strip_as n=80000 timeout=600
     verif_search!{ text_w_asn; |v: u32, sel: u8, tn: u8, t: [u8; 12]| {
         let a = Asn::from_u32(v);
         assert!(a.into_u32() == v && u32::from(a) == v && Asn::from(v) == a, "from_u32 / into_u32 are inverse");
@@ -335,7 +335,7 @@ mod verif_text_w_asn {
         v
     }
 
-    //@harness text_w_asnset W fn=SmallAsnSet::{from_iter,iter,len,is_empty,contains,union,intersection,difference,symmetric_difference},SmallSetUnion::next,SmallSetIntersection::next,SmallSetDifference::next,SmallSetSymmetricDifference::next n=30000 timeout=600
+    //@harness text_w_asnset W fn=SmallAsnSet::{from_iter,iter,len,is_empty,contains,union,intersection,difference,symmetric_difference},SmallSetUnion::next,SmallSetIntersection::next,SmallSetDifference::next,SmallSetSymmetricDifference::next n=120000 timeout=600
     verif_search!{ text_w_asnset; |n1: u8, i1: [u8; 8], o1: u8, n2: u8, i2: [u8; 8], o2: u8, x: u32| {
         let (v1, v2) = (items(n1, i1, x, o1), items(n2, i2, x, o2));
         let (s1, s2) = (set(&v1), set(&v2));
@@ -372,7 +372,7 @@ mod verif_text_w_origin {
     use crate::resources::addr::verif_text_w_spec::*;
     use crate::verif_support::{assume, reach};
 
-    //@harness text_w_origin W fn=RouteOrigin::{new,eq,cmp,partial_cmp,hash,is_v4},Payload::{origin,eq,hash},MaxLenPrefix::resolved_max_len n=30000 timeout=600
+    //@harness text_w_origin W fn=RouteOrigin::{new,eq,cmp,partial_cmp,hash,is_v4},Payload::{origin,eq,hash},MaxLenPrefix::resolved_max_len n=150000 timeout=600
     verif_search!{ text_w_origin; |v4: bool, x4: u32, x6: u128, len: u8, s1: u8, m1: u8, asn1: u32, rel: u8, y: u128, len2: u8, s2: u8, m2: u8, asn2: u32| {
         let w: u32 = if v4 { 32 } else { 128 };
         let ma = M::new(v4, if v4 { x4 as u128 } else { x6 }, (len as u32 % (w + 1)) as u8);
@@ -429,7 +429,7 @@ mod verif_text_w_set {
         t
     }
 
-    //@harness text_w_as_blocks W fn=AsBlocks::{from_str,fmt,serialize,deserialize,from_iter},AsBlock::{from_str,fmt},AsRange::fmt,AsResources::from_str,ResourceSet::from_strs n=20000 timeout=600
+    //@harness text_w_as_blocks W fn=AsBlocks::{from_str,fmt,serialize,deserialize,from_iter},AsBlock::{from_str,fmt},AsRange::fmt,AsResources::from_str,ResourceSet::from_strs n=80000 timeout=600
     verif_search!{ text_w_as_blocks; |n: u8, a0: u32, a1: u32, a2: u32, a3: u32, a4: u32, a5: u32, a6: u32, a7: u32, mode: u8, style: u8, inv: u8, sep: u8| {
         let raw = mk((n % 5) as usize, &[a0, a1, a2, a3, a4, a5, a6, a7], mode, 32);
         // text items: "AS1-AS5", "1-5", "as1-As5", single "AS7" / "7"; optionally with the bounds swapped
@@ -463,7 +463,7 @@ mod verif_text_w_set {
         assert!(de.is_ok() && de.as_ref().unwrap() == &blocks && as_view(de.as_ref().unwrap()) == want, "serde round trip gives an equal set");
     }}
 
-    //@harness text_w_ip_blocks W fn=Ipv4Blocks::{from_str,fmt,serialize,deserialize},Ipv6Blocks::{from_str,fmt,serialize,deserialize},IpBlocks::{from_str,from_iter,as_v4,as_v6},IpBlocksForFamily::fmt,IpBlock::{from_v4_str,from_v6_str,fmt_v4,fmt_v6},AddressRange::{from_v4_str_sep,from_v6_str_sep,fmt_v4,fmt_v6},Prefix::{from_v4_str_sep,from_v6_str_sep,fmt_v4,fmt_v6},ResourceSet::from_strs n=20000 timeout=600
+    //@harness text_w_ip_blocks W fn=Ipv4Blocks::{from_str,fmt,serialize,deserialize},Ipv6Blocks::{from_str,fmt,serialize,deserialize},IpBlocks::{from_str,from_iter,as_v4,as_v6},IpBlocksForFamily::fmt,IpBlock::{from_v4_str,from_v6_str,fmt_v4,fmt_v6},AddressRange::{from_v4_str_sep,from_v6_str_sep,fmt_v4,fmt_v6},Prefix::{from_v4_str_sep,from_v6_str_sep,fmt_v4,fmt_v6},ResourceSet::from_strs n=120000 timeout=600
     verif_search!{ text_w_ip_blocks; |v4: bool, n: u8, a0: u32, a1: u32, a2: u32, a3: u32, a4: u32, a5: u32, a6: u32, a7: u32, mode: u8, kinds: u8, lens: [u8; 4], inv: u8, sep: u8| {
         let w: u32 = if v4 { 32 } else { 128 };
         let raw = mk((n % 5) as usize, &[a0, a1, a2, a3, a4, a5, a6, a7], mode, w);
@@ -534,7 +534,7 @@ mod verif_text_w_set {
     fn rset(a: &Iv, v4: &Iv, v6: &Iv) -> ResourceSet { ResourceSet::new(as_blocks(a), ip_blocks(&up4(v4)).into(), ip_blocks(v6).into()) }
     fn rview(s: &ResourceSet) -> (Iv, Iv, Iv) { (as_view(s.asn()), ip_view(s.ipv4()), ip_view(s.ipv6())) }
 
-    //@harness text_w_resource_set W fn=ResourceSet::{new,contains,contains_asn,union,intersection,difference,is_empty,from_strs,fmt,serialize,deserialize},ResourceDiff::is_empty n=20000 timeout=600
+    //@harness text_w_resource_set W fn=ResourceSet::{new,contains,contains_asn,union,intersection,difference,is_empty,from_strs,fmt,serialize,deserialize},ResourceDiff::is_empty n=80000 timeout=600
     verif_search!{ text_w_resource_set; |e: [u8; 12], o: [u8; 12], cnt: u16, m_as: u8, m_4: u8, m_6: u8, x: u32| {
         let c = |k: u32| (cnt >> (2 * k) & 3) as u8;
         // two sets: per type up to two blocks in any order, from the same small scale so that they interact
@@ -586,7 +586,7 @@ mod verif_text_w_limit {
         match sel % 4 { 0 => None, 1 => Some(Vec::new()), 2 => Some(inter(entitled, other)), _ => Some(norm(other.clone())) }
     }
 
-    //@harness text_w_limit W fn=RequestResourceLimit::{apply_to,is_empty,with_asn,with_ipv4,with_ipv6,serialize,deserialize_asn,deserialize_ipv4,deserialize_ipv6} n=20000 timeout=600
+    //@harness text_w_limit W fn=RequestResourceLimit::{apply_to,is_empty,with_asn,with_ipv4,with_ipv6,serialize,deserialize_asn,deserialize_ipv4,deserialize_ipv6} n=80000 timeout=600
     verif_search!{ text_w_limit; |e: [u8; 12], o: [u8; 12], cnt: u16, sel: u8, m_as: u8, m_4: u8, m_6: u8| {
         let c = |k: u32| (cnt >> (2 * k) & 3) as usize % 3;
         // the entitled set and, per type, a candidate limit from the same scale
